@@ -351,25 +351,10 @@ fn parse_shim_log(text: &str) -> (Vec<EntEvent>, Vec<IoEvent>) {
                     ok,
                     errno: if ok { 0 } else { f[5].parse().unwrap_or(0) },
                     bytes: if ok { f[5].to_string() } else { String::new() },
-                    src: if ok {
-                        "plan".into()
-                    } else {
-                        f.get(6).unwrap_or(&"plan").to_string()
-                    },
+                    src: f.get(6).unwrap_or(&"plan").to_string(),
                     step,
                 });
             }
-            // a zero-length successful request logs an empty hex field
-            Some("E") if f.len() == 5 && f[4] == "ok" => ent.push(EntEvent {
-                seq: f[1].parse().unwrap_or(0),
-                task: f[2].parse().unwrap_or(0),
-                len: f[3].parse().unwrap_or(0),
-                ok: true,
-                errno: 0,
-                bytes: String::new(),
-                src: "plan".into(),
-                step: 0,
-            }),
             Some(t @ ("R" | "W")) if f.len() >= 5 => io.push(IoEvent {
                 tag: t.chars().next().unwrap(),
                 k: f[1].parse().unwrap_or(0),
@@ -662,17 +647,12 @@ fn exec_once(ctx: &Ctx, dir: &Path, cmd: &Cmd, timeout: Duration) -> Result<Outc
         }
     } else {
         let log = String::from_utf8_lossy(&read_file_lossy(&log_path, 1 << 22)).into_owned();
-        let (mut ent, io) = parse_shim_log(&log);
+        let (ent, io) = parse_shim_log(&log);
         if status == Status::Exit(96) && ent.is_empty() && io.is_empty() {
             return Err(he("shim could not open its plan".into()));
         }
         let mut hist = None;
         if cmd.e3 && cmd.e2.is_some() {
-            for e in ent.iter_mut() {
-                if e.ok && (e.seq as usize) >= cmd.entropy.len() {
-                    e.src = "tail".into();
-                }
-            }
             let mut h = e3_history(&log, &ent, &stderr);
             match (h.end.as_str(), &status) {
                 ("deadlock", Status::Exit(71))
